@@ -126,6 +126,12 @@ Example C49_refuted_doublestar_greedy :            (* **/a/b vs a/c/a/b *)
   (ignored None [([], B "**/a/b")] [B "a"; B "c"; B "a"; B "b"] false,
    git_ignored None [([], B "**/a/b")] [B "a"; B "c"; B "a"; B "b"] false) = (false, true).
 Proof. vm_compute. reflexivity. Qed.
+Example C49_refuted_dir_pattern_below_reincluded_dir :   (* foo/x/ then !*/**/ vs file foo/x/a *)
+  (ignored None [([], B "foo/x/
+!*/**/")] [B "foo"; B "x"; B "a"] false,
+   git_ignored None [([], B "foo/x/
+!*/**/")] [B "foo"; B "x"; B "a"] false) = (true, false).
+Proof. vm_compute. reflexivity. Qed.
 Example C49_refuted_whitespace_only_line :         (* a line holding TAB vs a file named TAB *)
   (ignored None [([], [9; 10])] [[9]] false, git_ignored None [([], [9; 10])] [[9]] false) = (false, true).
 Proof. vm_compute. reflexivity. Qed.
